@@ -195,7 +195,7 @@ class Connection(Stateful):
             if not lazy:
                 channel.open()
         LOGGER.debug('Channel #%d Opened', channel_id)
-        return self._channels[channel_id]
+        return channel
 
     def check_for_errors(self):
         """Check Connection for errors.
